@@ -71,6 +71,81 @@ def badStore : Store Term := { toyStore with data := List.replicate 32 1 ++ List
 /-- an `EmptyOutboard` over three chunk groups -/
 def emptyStore : Store Term := ⟨.empty, .raw [], ⟨3000, 0⟩, []⟩
 
+/-! ## 1. `Linked` and `Reach` follow the tree: left child / right descendant -/
+
+/-- an inner shifted node: its stored pair must give the hash owed from above; the walk continues
+with (left hash, left child) if the group starts in front of the node's mid, else with
+(right hash, right descendant) -/
+theorem linked_inner (hf : HashFns H) (fl : Flavour) (ob : Store H) (data : List UInt8)
+    (withData : Bool) (hs : ob.tree.size ≤ 2 ^ 63) (hbs : ob.tree.bs ≤ 10) {x : Nat}
+    (hx : x < ob.tree.shifted.2) (hleaf : Node.isLeaf x = false) (owed : H) (isRoot : Bool)
+    (g : Nat × Nat) :
+    Linked hf fl ob data withData owed x isRoot g ↔
+      ∃ lh rh lc rd, ob.load hf fl (Node.subBs x ob.tree.bs) = .ok (some (lh, rh)) ∧
+        hf.parentCv lh rh isRoot = owed ∧ Node.leftChild x = some lc ∧
+        Node.rightDescendant x ob.tree.shifted.2 = some rd ∧
+        if g.1 < Node.mid (Node.subBs x ob.tree.bs) then
+          Linked hf fl ob data withData lh lc false g
+        else Linked hf fl ob data withData rh rd false g :=
+  Linked_inner hf fl ob data withData hs hbs hx hleaf owed isRoot g
+
+example : emptyStore.tree.size ≤ 2 ^ 63 ∧ emptyStore.tree.bs ≤ 10 ∧
+    (1 : Nat) < emptyStore.tree.shifted.2 ∧ Node.isLeaf 1 = false := by decide
+
+/-- a shifted leaf, with `(l, m, r) = leaf_byte_ranges3(node)`: a persisted node must hold a pair
+that gives the owed hash, and the group is `[l, m)` checked against the left hash or `[m, r)`
+checked against the right hash; the half leaf is not persisted and its only group `[l, r)` is
+checked against the owed hash itself (`LeafOk … c s e h root` is
+`withData → hashSubtree hf c data[s, e) root = h`) -/
+theorem linked_leaf (hf : HashFns H) (fl : Flavour) (ob : Store H) (data : List UInt8)
+    (withData : Bool) (hs : ob.tree.size ≤ 2 ^ 63) (hbs : ob.tree.bs ≤ 10) {x : Nat}
+    (hx : x < ob.tree.shifted.2) (hleaf : Node.isLeaf x = true) (owed : H) (isRoot : Bool)
+    (g : Nat × Nat) :
+    Linked hf fl ob data withData owed x isRoot g ↔
+      let node := Node.subBs x ob.tree.bs
+      let lmr := ob.tree.leafByteRanges3 node
+      if ob.tree.isRelevant node then
+        ∃ lh rh, ob.load hf fl node = .ok (some (lh, rh)) ∧ hf.parentCv lh rh isRoot = owed ∧
+          if g.1 < Node.mid node then
+            g = (fullChunksOf lmr.1, chunksOf lmr.2.1) ∧
+              LeafOk hf data withData (fullChunksOf lmr.1) lmr.1 lmr.2.1 lh false
+          else
+            g = (fullChunksOf lmr.2.1, chunksOf lmr.2.2) ∧
+              LeafOk hf data withData (fullChunksOf lmr.2.1) lmr.2.1 lmr.2.2 rh false
+      else
+        g = (fullChunksOf lmr.1, chunksOf lmr.2.2) ∧
+          LeafOk hf data withData (fullChunksOf lmr.1) lmr.1 lmr.2.2 owed isRoot :=
+  Linked_leaf hf fl ob data withData hs hbs hx hleaf owed isRoot g
+
+example : emptyStore.tree.size ≤ 2 ^ 63 ∧ emptyStore.tree.bs ≤ 10 ∧
+    (2 : Nat) < emptyStore.tree.shifted.2 ∧ Node.isLeaf 2 = true := by decide
+
+/-- the query side of an inner node: non-empty, then `split(ranges, node)`, the left half going to
+the left child and the right half to the right descendant -/
+theorem reach_inner (t : Tree) (hs : t.size ≤ 2 ^ 63) (hbs : t.bs ≤ 10) {x : Nat}
+    (hx : x < t.shifted.2) (hleaf : Node.isLeaf x = false) (ranges : Ranges) (g : Nat × Nat) :
+    Reach t ranges x g ↔
+      ranges ≠ [] ∧ ∃ lc rd, Node.leftChild x = some lc ∧
+        Node.rightDescendant x t.shifted.2 = some rd ∧
+        if g.1 < Node.mid (Node.subBs x t.bs) then
+          Reach t (Ranges.splitNode ranges (Node.subBs x t.bs)).1 lc g
+        else Reach t (Ranges.splitNode ranges (Node.subBs x t.bs)).2 rd g :=
+  Reach_inner t hs hbs hx hleaf ranges g
+
+/-- the query side of a shifted leaf -/
+theorem reach_leaf (t : Tree) (hs : t.size ≤ 2 ^ 63) (hbs : t.bs ≤ 10) {x : Nat}
+    (hx : x < t.shifted.2) (hleaf : Node.isLeaf x = true) (ranges : Ranges) (g : Nat × Nat) :
+    Reach t ranges x g ↔
+      ranges ≠ [] ∧ (t.isRelevant (Node.subBs x t.bs) = true →
+        if g.1 < Node.mid (Node.subBs x t.bs) then
+          (Ranges.splitNode ranges (Node.subBs x t.bs)).1 ≠ []
+        else (Ranges.splitNode ranges (Node.subBs x t.bs)).2 ≠ []) :=
+  Reach_leaf t hs hbs hx hleaf ranges g
+
+example : (⟨3000, 0⟩ : Tree).size ≤ 2 ^ 63 ∧ (⟨3000, 0⟩ : Tree).bs ≤ 10 ∧
+    (1 : Nat) < (Tree.shifted ⟨3000, 0⟩).2 ∧ Node.isLeaf 1 = false ∧
+    (0 : Nat) < (Tree.shifted ⟨3000, 0⟩).2 ∧ Node.isLeaf 0 = true := by decide
+
 /-! ## 2. `validate_rec` -/
 
 section
@@ -469,3 +544,53 @@ example : (validRanges C03.toyHash .fsm intactStore C03.toyBlob [1, 2]).terminal
     intactStore rfl rfl (.inl ⟨.inl rfl, rfl⟩) [1, 2] (by decide)).1
 
 end Bao.C06
+
+/-
+## Status of C06
+
+PROVED (full strength; every `hf : HashFns H`; `tree.size ≤ 2^63`, `bs ≤ 10`; axioms ⊆
+{propext, Classical.choice, Quot.sound}):
+  1. `linked_inner`, `linked_leaf`, `reach_inner`, `reach_leaf` — the recursive notions
+     (`ValidL.Linked`, `ValidL.Reach`, defined through shifted coordinates by recursion on the level)
+     unfold along left child / right descendant / `split(ranges, node)` exactly like `validate_rec`.
+  2. `sound_rec`   — ANY store / data state (altered bytes, short backing, io errors, fuel > level):
+                     reported ⇒ `Linked ∧ Reach`; run ended `.ok` ⇒ every `Linked ∧ Reach` group is
+                     reported; reports strictly increasing (`a.2 ≤ b.1 ∧ a.1 < b.1`), `Nodup`.
+     `exact_rec`   — `NoIo` ⇒ `validateRec … = ⟨ys, .ok⟩ ∧ (g ∈ ys ↔ Linked ∧ Reach) ∧ sorted ∧ Nodup`.
+  3. `sound`, `exact`, `sound_outboard`, `exact_outboard` — the same for `validRanges` /
+     `validOutboardRanges` with `Verifiable` (= `Linked` to `ob.root` from the shifted root; for
+     `blocks = 1` the single hash check) and `blocks = 1 ∨ Reach (truncate q size) root g`.
+     `single_group` — `blocks = 1`: the explicit results (query ignored).
+  4. `groups`           — `Group t root g ↔ ∃ i < blocks, g = (i·2^bs, min ((i+1)·2^bs) chunks)`.
+     `reach_iff_touched` — BOTH directions, for well-formed `q` and `blocks ≠ 1`:
+                     `Reach (truncate q size) root g ↔ ∃ c ∈ g, Spec.selected size q c`.
+                     (the hard direction uses `PlanPre.Tight` / `PlanPre.Bounded`, the minimality
+                     invariant of `split_inner` proved in `Lemmas/PlanPreCover.lean`.)
+     `reported_sound`, `reported_iff`, `reported_iff_outboard` — reported ⇔ verifiable ∧ touched.
+  5. `true_bytes`, `reported_true_bytes` — needs `CollisionFree hf`, `ob.root = Spec.root hf d`,
+                     `d.length ≤ 2^64·1024`, `tree.size ≤ data.length`; NOT needed: `LawfulBEq`,
+                     `ofBytes (toBytes h) = h`, `tree.size = d.length`.  Conclusion: the stored bytes
+                     `[g.1·1024, min (g.2·1024) size)` equal the bytes of `d` there and lie inside `d`.
+  6. `intact_of_load`, `intact` (through `C03.load_spec` and `ValidL.mem_persistedPre`: every
+     existing node of level ≥ bs is in `Spec.persistedPre`), `intact_reported` (no io error is
+     possible on an intact store of any of the four kinds in either flavour; the validators end
+     `.ok` and report every chunk group the query touches).
+  sync / async agreement: `C08.validRanges_eq`, `C08.validOutboardRanges_eq`.
+PARTIAL: none.   OPEN: none.
+
+`NoIo` (hypothesis of the "exact" halves): every `load` of an existing node that is relevant for
+the outboard returns `.ok _`, and (data validator) `tree.size ≤ data.length`.  It holds for the
+`EmptyOutboard` (`noIo_empty`), for the io-backed kinds in the fsm flavour whatever the backing
+length (`noIo_fsm`), for every store whose loads of existing nodes succeed (`noIo_of_load`), in
+particular the intact stores.  Without it only soundness is claimed — and it is claimed for every
+store state.
+
+Remarks on the model / the code (no statement is affected):
+  * a tree with a single chunk group ignores the query: `valid_ranges` with the EMPTY query still
+    reports `0..chunks` there, while a tree with several groups reports nothing for an empty query
+    (hence the `blocks = 1 ∨ …` in the statements).
+  * for the empty blob (`size = 0`) the reported range is the empty range `0..0`.
+  * `load` returning `.ok none` for a relevant node (the slot functions never do that for a node of
+    the tree) would silently end that branch with no report and no error; `Linked` is false there,
+    so exactness is not affected.
+-/
